@@ -543,6 +543,37 @@ static int a_set_main_sched_other(void)
         g_obj2 = NULL;
     return r;
 }
+/* The main scheduler of another, joined stream is replaced by a predefined one over a pool the
+ * caller owns (ABT_xstream_set_main_sched_basic with a user-given pool).  A failed call must give
+ * back the reference it took on that pool: the number of schedulers the pool reports (info
+ * interface) is what it was. */
+static ABT_pool g_p3 = ABT_POOL_NULL;
+static int pool_num_scheds(ABT_pool pool)
+{
+    static char buf[4096];
+    int n = -1;
+    if (pool == ABT_POOL_NULL)
+        return -1;
+    memset(buf, 0, sizeof buf);
+    FILE *f = fmemopen(buf, sizeof buf - 1, "w");
+    if (!f)
+        return -1;
+    int r = ABT_info_print_pool(f, pool);
+    fclose(f);
+    if (r != ABT_SUCCESS)
+        return -1;
+    char *q = strstr(buf, "num_scheds");
+    if (q && (q = strchr(q, ':')))
+        n = atoi(q + 1);
+    return n;
+}
+static int a_set_main_sched_basic_pool(void)
+{
+    g_h = "na";
+    if (!g_nes)
+        return ABT_SUCCESS; /* (needs a secondary stream) */
+    return ABT_xstream_set_main_sched_basic(g_xs1, ABT_SCHED_BASIC, 1, &g_p3);
+}
 static int a_info_print(void)
 {
     g_h = "na";
@@ -617,6 +648,7 @@ static const op_t OPS[] = {
     { "set_main_sched", "none", a_set_main_sched, NULL, 1, 1 },
     { "info_print", "none", a_info_print, NULL },
     { "set_main_sched_other", "upm", a_set_main_sched_other, NULL, 1, 1 },
+    { "set_main_sched_basic_pool", "upm", a_set_main_sched_basic_pool, NULL, 1, 1 },
     { "pool_add_sched", "p1", a_pool_add_sched, NULL, 0, 1 },
     { "pool_add_sched_up", "up", a_pool_add_sched_up, NULL, 0, 1 },
 };
@@ -862,17 +894,23 @@ static int cycle(const op_t *op, int k, uint64_t var)
         CHK(ABT_sched_create_basic(ABT_SCHED_BASIC, 1, &g_up2, ABT_SCHED_CONFIG_NULL, &s));
         g_obj2 = (void *)s;
     }
+    g_p3 = ABT_POOL_NULL;
+    if (!strcmp(op->name, "set_main_sched_basic_pool") && g_nes) {
+        CHK(ABT_xstream_join(g_xs1));
+        CHK(ABT_pool_create(g_def, ABT_POOL_CONFIG_NULL, &g_p3)); /* user-defined: the scheduler's ULT needs a unit of it */
+    }
     g_ran = 0;
     if (op->attempt) {
         snap("base");
         g_obj = NULL;
         call_t c = { op, k, 0, 0, 0, 0 };
+        int nsb = pool_num_scheds(g_p3);
         do_call(&c);
         int r = c.ret;
         long seen = c.seen, leak = c.leak;
         fired = c.fired;
-        EV("\"e\":\"Op\",\"op\":\"%s\",\"eff\":\"%s\",\"k\":%d,\"fired\":%d,\"ret\":%d,\"code\":%d,\"h\":\"%s\",\"leak\":%ld,\"warm\":%d,\"nreq\":%ld", op->name, op->eff, k,
-           fired, r != ABT_SUCCESS, r, g_h, leak, warm, seen);
+        EV("\"e\":\"Op\",\"op\":\"%s\",\"eff\":\"%s\",\"k\":%d,\"fired\":%d,\"ret\":%d,\"code\":%d,\"h\":\"%s\",\"leak\":%ld,\"warm\":%d,\"nreq\":%ld,\"nsb\":%d,\"nsa\":%d", op->name, op->eff, k,
+           fired, r != ABT_SUCCESS, r, g_h, leak, warm, seen, nsb, pool_num_scheds(g_p3));
         snap("after");
         if (r != ABT_SUCCESS) {
             g_obj = NULL;
@@ -917,6 +955,8 @@ static int cycle(const op_t *op, int k, uint64_t var)
     CHK(ABT_pool_free(&g_up));
     if (g_up2 != ABT_POOL_NULL)
         CHK(ABT_pool_free(&g_up2));
+    if (g_p3 != ABT_POOL_NULL)
+        CHK(ABT_pool_free(&g_p3));
     CHK(ABT_pool_user_def_free(&g_def));
     CHK(ABT_finalize());
     free(g_ustack);
